@@ -7,7 +7,10 @@
                      component is called once, each parameter bound to the LAST value given for it (converted
                      to the declared type) or else to its default; no namespace, no key popping.
    conv / as_pos   : every theorem holds for EVERY conversion function and both values of as_positional.
-   The two guards are exactly the finding classes of the correspondence judge (Corr/C12Judge.v). *)
+   auto_cli false  : the code as it is now (after the round-2 repairs 5bbebb1 and 2f69862 in /repo);
+   auto_cli true   : the code before them — only in the regression witnesses at the end.
+   The two guards are exactly the finding classes of the correspondence judge (Corr/C12Judge.v); the two guards
+   of round 1 (no_reserved_param_names, no_private_optional_without_default) are gone with the repairs. *)
 From JV Require Import Lib.Base Lib.C12Syntax Model.C12Cli Spec.C12CliSpec Proofs.C12CliProofs.
 
 (* The core: for all component trees (function, class with methods, list, nested dict), all tokenised
@@ -17,8 +20,8 @@ From JV Require Import Lib.Base Lib.C12Syntax Model.C12Cli Spec.C12CliSpec Proof
    spec refuses, and never an exception escaping from the call (no missing / unexpected keyword). *)
 Theorem C12_binds_exactly :
   forall (conv : ty -> raw -> option value) (as_pos : bool) (cs : components) (toks : list tok),
-    no_reserved_param_names cs = true -> no_private_optional_without_default cs = true ->
-    match auto_cli conv as_pos cs toks with
+    no_class_subcommand_param cs = true -> no_nullish_str_default cs = true ->
+    match auto_cli false conv as_pos cs toks with
     | Ok (log, ret) => spec conv as_pos cs toks = Done log ret
     | Err EParse => spec conv as_pos cs toks = Rejected
     | Err EBuild => spec conv as_pos cs toks = Refused
@@ -75,9 +78,9 @@ Print Assumptions C12_function_called_once.
 Theorem C12_class_split :
   forall (conv : ty -> raw -> option value) (as_pos : bool) (n : str) (i : sig) (ms : list (str * sig))
          (toks : list tok) (log : list call) (ret : retv),
-    no_reserved_param_names (One (CCls n i ms)) = true ->
-    no_private_optional_without_default (One (CCls n i ms)) = true ->
-    auto_cli conv as_pos (One (CCls n i ms)) toks = Ok (log, ret) ->
+    no_class_subcommand_param (One (CCls n i ms)) = true ->
+    no_nullish_str_default (One (CCls n i ms)) = true ->
+    auto_cli false conv as_pos (One (CCls n i ms)) toks = Ok (log, ret) ->
     exists b1, map fst b1 = names i /\
       ((ms = [] /\ log = [([n; s__init__], b1)] /\ ret = RetInstance) \/
        (exists m s b2, assoc m ms = Some s /\ map fst b2 = names s /\
@@ -86,10 +89,10 @@ Proof. exact class_split. Qed.
 Print Assumptions C12_class_split.
 
 (* _add_signature_parameter's table (code-shaped arg_of_param): required iff no default and not Optional;
-   positional iff required and as_positional; Optional without default = option defaulting to None. *)
+   positional iff required and as_positional; Optional without default = option defaulting to None (private or not). *)
 Theorem C12_required_iff_no_default :
   forall (as_pos : bool) (p : param) (a : arg),
-    arg_of_param as_pos p = Some a ->
+    arg_of_param false as_pos p = Some a ->
     (a_req a = true <-> (p_default p = None /\ is_optional (p_ty p) = false)) /\
     (a_pos a = true <-> (a_req a = true /\ as_pos = true)).
 Proof. exact required_iff_no_default. Qed.
@@ -97,18 +100,39 @@ Print Assumptions C12_required_iff_no_default.
 
 Theorem C12_optional_defaults_none :
   forall (as_pos : bool) (p : param),
-    p_default p = None -> is_optional (p_ty p) = true -> starts_underscore (p_name p) = false ->
-    arg_of_param as_pos p =
+    p_default p = None -> is_optional (p_ty p) = true ->
+    arg_of_param false as_pos p =
     Some {| a_dest := p_name p; a_pos := false; a_ty := p_ty p; a_req := false; a_def := VNone |}.
 Proof. exact optional_defaults_none. Qed.
 Print Assumptions C12_optional_defaults_none.
 
-(* ---- the guards are needed: the unchanged code violates the property there (known findings) ------- *)
+(* ---- the two guards are needed: the present code violates the property there (open findings) ------- *)
+(* class Tool: def __init__(self, subcommand: int = 1) (no public methods), `--subcommand=5`: _run_component pops
+   "subcommand" for every class and takes the value for a method name: TypeError escapes; the property demands 5 *)
+Theorem C12_class_subcommand_refuted :
+  exists cs toks,
+    no_class_subcommand_param cs = false /\ no_nullish_str_default cs = true /\
+    auto_cli false conv_simple true cs toks = Err ECrash /\
+    spec conv_simple true cs toks = Done [([w_tool; s__init__], [(s_subcommand, VInt 5)])] RetInstance.
+Proof. exact class_subcommand_refuted. Qed.
+Print Assumptions C12_class_subcommand_refuted.
+
+(* def run(alpha: Optional[str] = "null"), no arguments: the callee receives None instead of its default "null" *)
+Theorem C12_nullish_default_refuted :
+  exists cs toks,
+    no_class_subcommand_param cs = true /\ no_nullish_str_default cs = false /\
+    auto_cli false conv_simple true cs toks = Ok ([([w_run], [(w_alpha, VNone)])], RetCall 0) /\
+    spec conv_simple true cs toks = Done [([w_run], [(w_alpha, VStr w_null)])] (RetCall 0).
+Proof. exact nullish_default_refuted. Qed.
+Print Assumptions C12_nullish_default_refuted.
+
+(* ---- regression witnesses about the code BEFORE the round-2 repairs (auto_cli true): the three inputs on which it
+        violated the property, and the same inputs on the present model ------------------------------------------ *)
 (* def run(subcommand: int = 1), `--subcommand=5`: the callee receives 1, the property demands 5 *)
 Theorem C12_reserved_names_refuted :
   exists cs toks,
     no_reserved_param_names cs = false /\
-    auto_cli conv_simple true cs toks = Ok ([([w_run], [(s_subcommand, VInt 1)])], RetCall 0) /\
+    auto_cli true conv_simple true cs toks = Ok ([([w_run], [(s_subcommand, VInt 1)])], RetCall 0) /\
     spec conv_simple true cs toks = Done [([w_run], [(s_subcommand, VInt 5)])] (RetCall 0).
 Proof. exact reserved_subcommand_refuted. Qed.
 Print Assumptions C12_reserved_names_refuted.
@@ -117,7 +141,7 @@ Print Assumptions C12_reserved_names_refuted.
 Theorem C12_reserved_config_refuted :
   exists cs toks,
     no_reserved_param_names cs = false /\
-    auto_cli conv_simple true cs toks =
+    auto_cli true conv_simple true cs toks =
       Ok ([([w_tool; s__init__], [(w_alpha, VInt 1)]); ([w_tool; w_train], [(s_config, VInt 3)])], RetCall 1) /\
     spec conv_simple true cs toks =
       Done [([w_tool; s__init__], [(w_alpha, VInt 1)]); ([w_tool; w_train], [(s_config, VInt 7)])] (RetCall 1).
@@ -128,16 +152,28 @@ Print Assumptions C12_reserved_config_refuted.
 Theorem C12_private_optional_refuted :
   exists cs toks,
     no_reserved_param_names cs = true /\ no_private_optional_without_default cs = false /\
-    auto_cli conv_simple true cs toks = Err ECrash /\
+    auto_cli true conv_simple true cs toks = Err ECrash /\
     spec conv_simple true cs toks = Done [([w_run], [(w_hid, VNone); (w_sigma, VBool true)])] (RetCall 0).
 Proof. exact private_optional_refuted. Qed.
 Print Assumptions C12_private_optional_refuted.
 
+Theorem C12_round1_inputs_repaired :
+  auto_cli false conv_simple true (One (CFn w_run [w_p s_subcommand TInt (Some (VInt 1))])) [KOpt s_subcommand (RInt 5)]
+    = Ok ([([w_run], [(s_subcommand, VInt 5)])], RetCall 0) /\
+  auto_cli false conv_simple true
+    (One (CCls w_tool [w_p w_alpha TInt (Some (VInt 1))] [(w_train, [w_p s_config TInt (Some (VInt 3))])]))
+    [KPos (RStr w_train); KOpt s_config (RInt 7)]
+    = Ok ([([w_tool; s__init__], [(w_alpha, VInt 1)]); ([w_tool; w_train], [(s_config, VInt 7)])], RetCall 1) /\
+  auto_cli false conv_simple true (One (CFn w_run [w_p w_hid (TOpt TInt) None; w_p w_sigma TBool None])) [KPos (RBool true)]
+    = Ok ([([w_run], [(w_hid, VNone); (w_sigma, VBool true)])], RetCall 0).
+Proof. exact round1_inputs_repaired. Qed.
+Print Assumptions C12_round1_inputs_repaired.
+
 (* ---- the hypotheses are satisfiable by a non-trivial input: a dict holding a class with a method;
         values from a --config section, positionally, by option (twice, last wins) and by default ---- *)
 Example C12_guards_satisfiable :
-  no_reserved_param_names w_ex_comps = true /\ no_private_optional_without_default w_ex_comps = true /\
-  auto_cli conv_simple true w_ex_comps w_ex_toks =
+  no_class_subcommand_param w_ex_comps = true /\ no_nullish_str_default w_ex_comps = true /\
+  auto_cli false conv_simple true w_ex_comps w_ex_toks =
     Ok ([([w_tool; s__init__], [(w_alpha, VInt 9); (w_beta, VStr w_sigma)]);
          ([w_tool; w_train], [(w_alpha, VInt 5); (w_sigma, VBool true)])], RetCall 1).
 Proof. exact guards_satisfiable. Qed.
